@@ -153,4 +153,45 @@ def mpnPowmMem (thr : Nat) (nextSize binvItch : Nat → Nat) (itch : Nat) (bp ep
   let s := windowExp (sqrSt red n) (mulSt red n) (tableSt n w t.1 t.2.1 t.2.2) ep ebi w
   powmFinish red mp s
 
+
+/-! ## mpn_powlo (powlo.c:88-173) on memory -/
+
+/-- `pp = TMP_ALLOC_LIMBS ((n << (windowsize - 1)) + n)`: the table plus n spare limbs for the high half
+    that the last mpn_mullow_n writes (MPIR's mpn_mullow_n sets 2n limbs, mullow_n.c:25). -/
+def inPPlo (n w i : Nat) : Bool := n * i + n ≤ (n <<< (w - 1)) + n
+
+/-- `mpn_sqr (tp, rp, n)` or `mpn_mullow_n (tp, rp, y, n)` (both set `tp[0..2n)`), then `MPN_COPY (rp, tp, n)`. -/
+def mulLo (n : Nat) (s : St) (y : List Nat) (yok : Bool) : St :=
+  let a := store s.tp 0 (toLimbs (2 * n) (val s.rp * val y))
+  let l := load a.1 0 n
+  { rp := l.1, tp := a.1, ok := s.ok && yok && a.2 && l.2 }
+
+def tableLo (n w : Nat) (pp : List (List Nat)) (tp : List Nat) (ok : Bool) (i : Nat) : St :=
+  { rp := pp.getD i (zeros n), tp := tp, ok := ok && inPPlo n w i }
+
+/-- powlo.c:121-128: `mpn_mullow_n (this_pp, last_pp, b2p, n)` writes entry `j+1` (the low half) and
+    entry `j+2` (the high half: junk, overwritten by the next round or left in the spare limbs). -/
+def precompLo (n w : Nat) (tp : List Nat) : Nat → Nat → List (List Nat) → Bool → List (List Nat) × Bool
+  | 0, _, pp, ok => (pp, ok)
+  | c + 1, j, pp, ok =>
+      let b2 := load tp (2 * n) n                                   -- b2p = tp + 2*n
+      let prod := toLimbs (2 * n) (val (pp.getD j (zeros n)) * val b2.1)
+      precompLo n w tp c (j + 1) ((pp.set (j + 1) (prod.take n)).set (j + 2) (prod.drop n))
+        (ok && b2.2 && inPPlo n w j && inPPlo n w (j + 1) && inPPlo n w (j + 2))
+
+/-- mpn_powlo (rp, bp, ep, en, n, tp) with `tp` an area of `itch` limbs ("Uses scratch space tp[3n-1..0]"). -/
+def mpnPowloMem (itch : Nat) (bp ep : List Nat) (n : Nat) : List Nat × Bool :=
+  let ebi := sizeinbase2 ep
+  let w := win_size_lo ebi
+  let tp := zeros itch
+  let pp := List.replicate (2 ^ (w - 1) + 1) (zeros n)              -- pp = TMP_ALLOC_LIMBS ((n << (windowsize - 1)) + n)
+  let pp := pp.set 0 (bp.take n)                                    -- MPN_COPY (this_pp, bp, n)
+  let a := store tp 0 (toLimbs (2 * n) (val (bp.take n) * val (bp.take n)))   -- mpn_sqr (tp, bp, n)
+  let l := load a.1 0 n
+  let c := store a.1 (2 * n) l.1                                    -- MPN_COPY (b2p, tp, n)
+  let t := precompLo n w c.1 (2 ^ (w - 1) - 1) 0 pp (inPPlo n w 0 && a.2 && l.2 && c.2)
+  let s := windowExp (fun s => mulLo n s s.rp true)
+    (fun s t => mulLo n s t.rp t.ok) (tableLo n w t.1 c.1 t.2) ep ebi w
+  (s.rp, s.ok)
+
 end Mpir.PowmL
